@@ -987,3 +987,41 @@ pub fn init_0rtt_native(_x: u8) -> u32 {
     assert!(conn.peer_params.preferred_address.is_none());
     1
 }
+
+/// Native demonstration (C16): a 1300-byte datagram is queued while the path MTU is 1452; then the peer
+/// migrates and the new path starts at 1200 bytes.  The datagram can never be sent on the new path: it
+/// must not stay queued forever in front of datagrams that do fit.
+pub fn migrate_oversized_datagram_native(_x: u8) -> u32 {
+    let mut conn = mk_conn(true, true);
+    conn.state = State::Established;
+    conn.path.validated = true;
+    conn.spaces[SpaceId::Data].crypto = Some(nullcrypto::keys());
+    conn.highest_space = SpaceId::Data;
+    conn.spaces[SpaceId::Initial].crypto = None;
+    conn.spaces[SpaceId::Handshake].crypto = None;
+    conn.peer_params.max_datagram_frame_size = Some(VarInt::from_u32(65535));
+    conn.path.mtud = mtud::mk_black_hole_ready();
+    assert!(conn.path.current_mtu() == 1452);
+    let now = crate::verif::mk_instant(51, 0).unwrap();
+    assert!(conn.datagrams().send(Bytes::from(vec![1u8; 1300]), false).is_ok());
+    // the peer moves to another address; the new path is validated right away for the sake of the demonstration
+    conn.migrate(now, SocketAddr::new(IpAddr::V6(std::net::Ipv6Addr::new(0x2001, 0xdb8, 0, 0, 0, 0, 0, 9)), 999));
+    conn.path.validated = true;
+    conn.path.challenge = None;
+    conn.path.challenge_pending = false;
+    assert!(conn.path.current_mtu() < 1300 + 30);
+    assert!(conn.datagrams().send(Bytes::from_static(b"small"), false).is_ok());
+    let mut buf = Vec::with_capacity(8 * 1452);
+    let mut sent_small = false;
+    for _ in 0..20 {
+        match conn.poll_transmit(now, 1, &mut buf) {
+            Some(_) => {
+                sent_small |= buf.windows(5).any(|w| w == b"small");
+                buf.clear();
+            }
+            None => break,
+        }
+    }
+    assert!(sent_small, "a datagram that fits the new path is stuck behind one that no longer does ({} queued)", conn.datagrams.outgoing.len());
+    1
+}
